@@ -41,6 +41,8 @@
 // random order makes the next K `new`s of that class return addresses in random order.
 #include "common.h"
 #include "libavoid/libavoid.h"
+#include "libavoid/debughandler.h"
+#include "libavoid/vertices.h"
 #include "libvpsc/rectangle.h"
 #include "libvpsc/variable.h"
 #include "libvpsc/constraint.h"
@@ -137,6 +139,10 @@ struct RScene {
     double buf = 0;            // shapeBufferDistance (0 or 1/2; rectangles keep distance >= 1 from every connector end)
     int moveIdx = -1;          // shape moved (relative) + second processTransaction, or -1
     double mdx = 0, mdy = 0;
+    // classes *-params: EVERY public RoutingParameter / RoutingOption (router.h); prm[i] < 0 / opt[i] < 0 = leave the default
+    double prm[9] = {-1, -1, -1, -1, -1, -1, -1, -1, -1};
+    int opt[7] = {-1, -1, -1, -1, -1, -1, -1};
+    bool capture = false;      // record the A* vertex path of every connector through the library's DebugHandler interface
 };
 
 // grid scene: cells of side c, chosen cells get a rectangle with integer corners at distance >= 1 from the
@@ -231,11 +237,41 @@ static void printScene(const RScene &s) {
         if (s.conns[i].sdir != 15 || s.conns[i].tdir != 15 || s.conns[i].spin >= 0 || s.conns[i].tpin >= 0)
             printf("cdir %zu %u %u %d %d\n", i, s.conns[i].sdir, s.conns[i].tdir, s.conns[i].spin, s.conns[i].tpin);
     if (s.moveIdx >= 0) printf("move %d %s %s\n", s.moveIdx, H(s.mdx).c_str(), H(s.mdy).c_str());
+    for (int i = 0; i < 9; ++i) if (s.prm[i] >= 0) printf("param %d %s\n", i, H(s.prm[i]).c_str());
+    for (int i = 0; i < 7; ++i) if (s.opt[i] >= 0) printf("opt %d %d\n", i, s.opt[i]);
 }
 
 static Vec polyVec(const Avoid::PolyLine &p) {
     Vec v; for (size_t i = 0; i < p.size(); ++i) { v.push_back(p.ps[i].x); v.push_back(p.ps[i].y); } return v;
 }
+
+// The library's own DebugHandler interface (debughandler.h; compiled in unless NDEBUG) reports, for every A* search,
+// the end points and — each time a node is taken off the queue — the vertex path leading to it.  The last path reported
+// for a search that reached its target is the path A* returns, with EVERY visibility-graph vertex on it (route() has the
+// collinear ones removed): exactly the sequence of edges that cost() of makepath.cpp was charged for.
+struct PathTap : public Avoid::DebugHandler {
+    struct Rec { Avoid::VertInf *start, *tar; Avoid::Point tarPt; Vec path; };
+    std::vector<Rec> recs;
+    void beginningSearchWithEndpoints(Avoid::VertInf *src, Avoid::VertInf *tar) override {
+        Rec r; r.start = src; r.tar = tar; r.tarPt = tar->point; recs.push_back(r);
+    }
+    void updateCurrentSearchPath(Avoid::PolyLine p) override {
+        if (recs.empty()) return;
+        Vec &v = recs.back().path; v.clear();
+        for (size_t i = p.size(); i > 0; --i) { v.push_back(p.ps[i - 1].x); v.push_back(p.ps[i - 1].y); }    // reported target-first
+    }
+    // vertex path of the LAST search between these two end vertices; empty if that search did not reach the target
+    Vec lastFor(Avoid::VertInf *src, Avoid::VertInf *tar) const {
+        for (size_t i = recs.size(); i > 0; --i) {
+            const Rec &r = recs[i - 1];
+            if (r.start != src || r.tar != tar) continue;
+            size_t n = r.path.size();
+            if (n >= 4 && r.path[n - 2] == r.tarPt.x && r.path[n - 1] == r.tarPt.y) return r.path;
+            return Vec();
+        }
+        return Vec();
+    }
+};
 
 // build, route, (move, reroute), collect; the router is deleted unless `keepAlive` is given
 static Out routeScene(const RScene &s, Avoid::Router **keepAlive = nullptr) {
@@ -243,6 +279,10 @@ static Out routeScene(const RScene &s, Avoid::Router **keepAlive = nullptr) {
     Avoid::Router *router = new Avoid::Router(s.orth ? Avoid::OrthogonalRouting : Avoid::PolyLineRouting);
     router->setRoutingParameter(Avoid::segmentPenalty, s.pen);
     router->setRoutingParameter(Avoid::shapeBufferDistance, s.buf);
+    for (int i = 0; i < 9; ++i) if (s.prm[i] >= 0) router->setRoutingParameter((Avoid::RoutingParameter) i, s.prm[i]);
+    for (int i = 0; i < 7; ++i) if (s.opt[i] >= 0) router->setRoutingOption((Avoid::RoutingOption) i, s.opt[i] != 0);
+    PathTap tap;
+    if (s.capture) router->setDebugHandler(&tap);
     std::vector<Avoid::ShapeRef *> shapes;
     for (size_t i = 0; i < s.rects.size(); ++i) {
         Avoid::Rectangle poly(Avoid::Point(s.rects[i].x0, s.rects[i].y0), Avoid::Point(s.rects[i].x1, s.rects[i].y1));
@@ -290,9 +330,11 @@ static Out routeScene(const RScene &s, Avoid::Router **keepAlive = nullptr) {
     guarded("t1");
     for (size_t i = 0; i < conns.size(); ++i) {
         snprintf(lab, sizeof lab, "route%zu", i); o.push_back(std::make_pair(std::string(lab), polyVec(conns[i]->route())));
+        if (s.capture) { snprintf(lab, sizeof lab, "path%zu", i); o.push_back(std::make_pair(std::string(lab), tap.lastFor(conns[i]->src(), conns[i]->dst()))); }
         if (failed) continue;
         snprintf(lab, sizeof lab, "display%zu", i); o.push_back(std::make_pair(std::string(lab), polyVec(conns[i]->displayRoute())));
     }
+    if (s.capture) router->setDebugHandler(nullptr);
     if (!failed && s.moveIdx >= 0 && s.moveIdx < (int) shapes.size()) {
         router->moveShape(shapes[s.moveIdx], s.mdx, s.mdy);
         guarded("t2");
@@ -606,6 +648,226 @@ static void caseRouteSymmetryDirs(long k, vh::Rng &r, bool strict) {
     printScene(s);
     fflush(stdout);
     emitSymmetryRuns(s);
+    vh::endCase();
+}
+
+// ------------------------------------------------------------------------------------ classes *-params
+// Frame classes over the WHOLE public configuration space of the router and over DEGENERATE geometry:
+//  * every RoutingParameter (segmentPenalty, anglePenalty, crossingPenalty, clusterCrossingPenalty, fixedSharedPathPenalty,
+//    portDirectionPenalty, shapeBufferDistance, idealNudgingDistance, reverseDirectionPenalty) gets a non-default value with
+//    probability ~1/2 each, every RoutingOption is flipped with probability ~1/3 (all values dyadic: double arithmetic on
+//    costs stays exact);
+//  * obstacles: rectangles that may be disjoint, abutting or overlapping (bars with arms: L-, U-, T-shaped pockets), in a
+//    random one of the 8 orientations;
+//  * connector ends: exactly aligned with each other (equal x or equal y), on the (buffered) edge LINES of shapes, across
+//    an obstacle from each other, inside pockets, shared between connectors — always strictly outside every buffered shape.
+static bool insideAny(const RScene &s, double x, double y, double margin) {
+    for (const R4 &q : s.rects)
+        if (x >= q.x0 - margin && x <= q.x1 + margin && y >= q.y0 - margin && y <= q.y1 + margin) return true;
+    return false;
+}
+
+static RScene genParamScene(vh::Rng &r, bool orth, int maxConns, bool crossStageOk) {
+    RScene s; s.orth = orth;
+    // ---- parameters
+    static const double segs[] = {1, 2, 3, 10, 50, 0.5};
+    s.pen = segs[r.range(0, 5)];
+    if (!orth && r.coin(1, 6)) s.pen = 0;
+    static const double bufs[] = {0, 0, 0.5, 1, 2, 4};
+    s.buf = bufs[r.range(0, 5)];
+    s.prm[Avoid::segmentPenalty] = s.pen;
+    s.prm[Avoid::shapeBufferDistance] = s.buf;
+    static const double angs[] = {0.5, 4, 50};
+    if (r.coin(1, 3)) s.prm[Avoid::anglePenalty] = angs[r.range(0, 2)];
+    static const double revs[] = {0.5, 2, 8, 32, 500, 500};
+    if (r.coin(2, 3)) s.prm[Avoid::reverseDirectionPenalty] = revs[r.range(0, 5)];
+    if (crossStageOk) {
+        static const double crs[] = {1, 16, 200};
+        if (r.coin(1, 3)) s.prm[Avoid::crossingPenalty] = crs[r.range(0, 2)];
+        static const double shp[] = {2, 110};
+        if (r.coin(1, 3)) s.prm[Avoid::fixedSharedPathPenalty] = shp[r.range(0, 1)];
+    }
+    if (r.coin(1, 3)) s.prm[Avoid::clusterCrossingPenalty] = r.coin() ? 4000 : 8;
+    if (r.coin(1, 3)) s.prm[Avoid::portDirectionPenalty] = r.coin() ? 100 : 4;
+    static const double nud[] = {0.5, 1, 2, 8};
+    if (r.coin(1, 2)) s.prm[Avoid::idealNudgingDistance] = nud[r.range(0, 3)];
+    for (int i = 0; i < 7; ++i) if (r.coin(1, 3)) s.opt[i] = (int) r.range(0, 1);
+    // ---- obstacles (integer corners in [0, W] x [0, Hh]).  Two shapes (grown by the buffer) may be apart or properly
+    // overlapping, but never ABUTTING (touching without overlapping: a zero-width channel, which libavoid opens in some
+    // orientations only — reported, not generated); polyline scenes keep all shapes >= 1 apart (overlapping shapes put
+    // shape corners inside other shapes: C03's subject).
+    long W = r.range(12, 40), Hh = r.range(12, 40);
+    int nOb = (int) r.range(1, 4);
+    auto rel = [&](const R4 &a, const R4 &b, double &ox, double &oy) {
+        ox = std::min(a.x1, b.x1) - std::max(a.x0, b.x0) + 2 * s.buf;
+        oy = std::min(a.y1, b.y1) - std::max(a.y0, b.y0) + 2 * s.buf;
+    };
+    auto abuts = [&](const R4 &a, const R4 &b) { double ox, oy; rel(a, b, ox, oy); return (ox == 0 && oy >= 0) || (oy == 0 && ox >= 0); };
+    auto apart = [&](const R4 &a, const R4 &b) { double ox, oy; rel(a, b, ox, oy); return ox <= -1 || oy <= -1; };
+    auto fits = [&](const std::vector<R4> &grp) {
+        for (size_t i = 0; i < grp.size(); ++i) {
+            for (const R4 &q : s.rects) if (abuts(grp[i], q) || (!orth && !apart(grp[i], q))) return false;
+            for (size_t j = i + 1; j < grp.size(); ++j) if (abuts(grp[i], grp[j]) || (!orth && !apart(grp[i], grp[j]))) return false;
+        }
+        return true;
+    };
+    for (int k = 0; k < nOb; ++k) for (int tries = 0; tries < 12; ++tries) {
+        int kind = orth ? (int) r.range(0, 3) : 0;
+        std::vector<R4> grp;
+        if (kind == 0) {                                   // plain rectangle
+            long w = r.range(1, W / 2), h = r.range(1, Hh / 2), x = r.range(0, W - w), y = r.range(0, Hh - h);
+            grp.push_back(R4{(double) x, (double) y, (double) (x + w), (double) (y + h)});
+        } else {                                           // bar with 1-2 arms: built in a local frame, then placed in one of 8 orientations
+            long len = r.range(4, 24), th = r.range(1, 3);
+            std::vector<R4> loc;
+            loc.push_back(R4{0, 0, (double) len, (double) th});
+            int arms = (int) r.range(1, 2);
+            for (int a = 0; a < arms; ++a) {
+                long aw = r.range(1, 3), ah = r.range(1, 10);
+                long ax = (a == 0) ? (r.coin(2, 3) ? len - aw : r.range(0, len - aw)) : (r.coin(2, 3) ? 0 : r.range(0, len - aw));
+                bool up = r.coin(3, 4);                    // second arm mostly on the same side: a U; else an S / T
+                if (kind == 3 && a == 1) up = !up;
+                double y0 = up ? -(double) ah : (double) th - 1, y1 = up ? 1 : (double) (th + ah);   // overlaps the bar by 1
+                loc.push_back(R4{(double) ax, y0, (double) (ax + aw), y1});
+            }
+            int sym = (int) r.range(0, 7);
+            double ox = (double) r.range(0, W), oy = (double) r.range(0, Hh);
+            for (const R4 &q : loc) {
+                double ax, ay, bx, by; applySym(sym, q.x0, q.y0, ax, ay); applySym(sym, q.x1, q.y1, bx, by);
+                grp.push_back(R4{std::min(ax, bx) + ox, std::min(ay, by) + oy, std::max(ax, bx) + ox, std::max(ay, by) + oy});
+            }
+        }
+        if (!fits(grp)) continue;
+        s.rects.insert(s.rects.end(), grp.begin(), grp.end());
+        break;
+    }
+    if (s.rects.empty()) s.rects.push_back(R4{2, 2, 7, 5});
+    // ---- connector ends
+    double m = s.buf;                                      // an end must be strictly outside every shape grown by the buffer
+    auto freePt = [&](double &x, double &y) -> bool {
+        for (int t = 0; t < 40; ++t) {
+            x = (double) r.range(-6, W + 6); y = (double) r.range(-6, Hh + 6);
+            if (!insideAny(s, x, y, m)) return true;
+        }
+        return false;
+    };
+    auto edgeLine = [&](bool xAxis) -> double {            // a (buffered) shape-edge line, or the edge itself
+        const R4 &q = s.rects[r.range(0, (long) s.rects.size() - 1)];
+        double b = r.coin(2, 3) ? s.buf : 0.0;
+        if (xAxis) return r.coin() ? q.x0 - b : q.x1 + b;
+        return r.coin() ? q.y0 - b : q.y1 + b;
+    };
+    int nc = (int) r.range(1, maxConns);
+    for (int i = 0; i < nc; ++i) {
+        Cn c; bool ok = false;
+        for (int tries = 0; tries < 60 && !ok; ++tries) {
+            int mode = (int) r.range(0, 7);
+            if (mode <= 2) {                               // across an obstacle: the two ends on opposite sides of a rectangle, aligned or nearly
+                const R4 &q = s.rects[r.range(0, (long) s.rects.size() - 1)];
+                bool vert = r.coin();
+                double d1 = m + (double) r.range(1, 4), d2 = m + (double) r.range(1, 12);
+                static const double offs[] = {0, 0, 0, 1, -1, 3, -2};
+                double off = offs[r.range(0, 6)];
+                if (vert) { c.sx = (double) r.range((long) q.x0 - 2, (long) q.x1 + 2); c.sy = q.y0 - d1; c.tx = c.sx + off; c.ty = q.y1 + d2; }
+                else { c.sy = (double) r.range((long) q.y0 - 2, (long) q.y1 + 2); c.sx = q.x0 - d1; c.ty = c.sy + off; c.tx = q.x1 + d2; }
+                if (r.coin()) { std::swap(c.sx, c.tx); std::swap(c.sy, c.ty); }
+            } else if (mode <= 4) {                        // free source; target exactly aligned with it on one axis
+                if (!freePt(c.sx, c.sy)) continue;
+                if (r.coin()) { c.tx = c.sx; c.ty = (double) r.range(-6, Hh + 6); } else { c.ty = c.sy; c.tx = (double) r.range(-6, W + 6); }
+            } else if (mode == 5) {                        // ends on shape-edge lines (x of one, y of the other / both)
+                if (!freePt(c.sx, c.sy) || !freePt(c.tx, c.ty)) continue;
+                if (r.coin()) c.sx = edgeLine(true); else c.sy = edgeLine(false);
+                if (r.coin()) { if (r.coin()) c.tx = edgeLine(true); else c.ty = edgeLine(false); }
+                if (r.coin(1, 3)) { if (r.coin()) c.tx = c.sx; else c.ty = c.sy; }
+            } else if (mode == 6 && i > 0) {               // shares an end point with an earlier connector
+                const Cn &o = s.conns[r.range(0, i - 1)];
+                c.sx = r.coin() ? o.sx : o.tx; c.sy = (c.sx == o.sx) ? o.sy : o.ty;
+                if (c.sx == o.tx && r.coin()) c.sy = o.ty;
+                if (!freePt(c.tx, c.ty)) continue;
+                if (r.coin(1, 3)) { if (r.coin()) c.tx = c.sx; else c.ty = c.sy; }
+            } else {
+                if (!freePt(c.sx, c.sy) || !freePt(c.tx, c.ty)) continue;
+            }
+            ok = !insideAny(s, c.sx, c.sy, m) && !insideAny(s, c.tx, c.ty, m) && !(c.sx == c.tx && c.sy == c.ty);
+        }
+        if (!ok) { c.sx = -8; c.sy = -8 - i; c.tx = (double) W + 8; c.ty = -8 - i; }      // aligned, outside everything
+        s.conns.push_back(c);
+    }
+    return s;
+}
+
+static void emitSymmetryRunsWithPaths(const RScene &s) {
+    Out a = routeScene(s);
+    printOut("A", a); fflush(stdout);
+    for (int sym = 1; sym < 8; ++sym) {
+        Out b = routeScene(frameScene(s, sym, 0, 0));
+        for (size_t i = 0; i < b.size(); ++i) {
+            if (b[i].first.compare(0, 5, "route") != 0 && b[i].first.compare(0, 4, "path") != 0) continue;
+            printf("S %d %s", sym, b[i].first.c_str());
+            for (size_t j = 0; j < b[i].second.size(); ++j) printf(" %s", H(b[i].second[j]).c_str());
+            printf("\n");
+        }
+        fflush(stdout);
+    }
+}
+
+// route-symmetry-params: the 8 images of a scene; the driver compares the COST of the A* vertex paths with the Lean cost
+// model (length + segmentPenalty*bends + reverseDirectionPenalty*reversing edges; Props/C20 proves it frame-invariant).
+// Scenes with >= 2 connectors in which the crossing-penalty rerouting stage can act (crossingPenalty / fixedSharedPathPenalty
+// set: the final cost involves the other connectors' routes, not modelled) or reverseDirectionPenalty is set carry the
+// tag route-symmetry-params-x: structure judged, cost differences counted only.
+static void caseRouteSymmetryParams(long k, vh::Rng &r) {
+    bool orth = r.coin(3, 4);
+    bool crossStage = r.coin(1, 5);
+    RScene s = genParamScene(r, orth, crossStage ? 3 : 2, crossStage);
+    bool x = s.conns.size() >= 2 && (s.prm[Avoid::crossingPenalty] > 0 || s.prm[Avoid::fixedSharedPathPenalty] > 0 ||
+                                     s.prm[Avoid::reverseDirectionPenalty] > 0);
+    // reverseDirectionPenalty is charged per visibility-graph EDGE, and which vertices the graph has on a line through
+    // another connector's end point depends on the frame (finding, see C20.py): judged with a single connector only
+    if (x && s.prm[Avoid::reverseDirectionPenalty] > 0 && r.coin(2, 3)) { s.conns.resize(1); x = false; }
+    vh::beginCase(k, x ? "route-symmetry-params-x" : "route-symmetry-params");
+    s.capture = true;
+    printScene(s);
+    fflush(stdout);
+    emitSymmetryRunsWithPaths(s);
+    vh::endCase();
+}
+
+// route-translate-params: the same scenes (any parameters, the crossing stage included, optional shape move) translated
+// by a multiple of 2^-10: raw routes translate exactly
+static void caseRouteTranslateParams(long k, vh::Rng &r) {
+    bool orth = r.coin(2, 3);
+    vh::beginCase(k, orth ? "route-translate-params-orth" : "route-translate-params");
+    RScene s = genParamScene(r, orth, 4, true);
+    // nudgeOrthogonalSegmentsConnectedToShapes with two connectors sharing an end point: which of the two end segments is
+    // nudged away depends on the translation (finding, see C20.py) — that combination is not generated
+    if (s.opt[Avoid::nudgeOrthogonalSegmentsConnectedToShapes] == 1) {
+        bool shared = false;
+        for (size_t i = 0; i < s.conns.size(); ++i) for (size_t j = i + 1; j < s.conns.size(); ++j) {
+            const Cn &a = s.conns[i], &b = s.conns[j];
+            if ((a.sx == b.sx && a.sy == b.sy) || (a.sx == b.tx && a.sy == b.ty) || (a.tx == b.sx && a.ty == b.sy) || (a.tx == b.tx && a.ty == b.ty)) shared = true;
+        }
+        if (shared) s.opt[Avoid::nudgeOrthogonalSegmentsConnectedToShapes] = 0;
+    }
+    if (r.coin(1, 3)) {
+        s.moveIdx = (int) r.range(0, (long) s.rects.size() - 1);
+        s.mdx = (double) r.range(-2, 2) * 0.5; s.mdy = (double) r.range(-2, 2) * 0.5;
+        // the moved shape must not swallow a connector end
+        R4 q = s.rects[s.moveIdx]; q.x0 += s.mdx; q.x1 += s.mdx; q.y0 += s.mdy; q.y1 += s.mdy;
+        for (const Cn &c : s.conns)
+            if ((c.sx >= q.x0 - s.buf && c.sx <= q.x1 + s.buf && c.sy >= q.y0 - s.buf && c.sy <= q.y1 + s.buf) ||
+                (c.tx >= q.x0 - s.buf && c.tx <= q.x1 + s.buf && c.ty >= q.y0 - s.buf && c.ty <= q.y1 + s.buf)) s.moveIdx = -1;
+    }
+    double tx = std::ldexp((double) r.range(-(1L << 16), 1L << 16), -10), ty = std::ldexp((double) r.range(-(1L << 16), 1L << 16), -10);
+    if (r.coin(1, 4)) { tx = std::floor(tx); }
+    if (r.coin(1, 4)) { ty = 0; }
+    printScene(s);
+    printf("shift %s %s\n", H(tx).c_str(), H(ty).c_str());
+    fflush(stdout);
+    Out a = routeScene(s);
+    printOut("A", a); fflush(stdout);
+    Out b = routeScene(frameScene(s, 0, tx, ty));
+    printOut("B", b);
     vh::endCase();
 }
 
@@ -1054,6 +1316,14 @@ int main(int argc, char **argv) {
         if (!a.want(k)) continue;
         vh::Rng r = vh::caseRng(a.seed, (uint64_t) k);
         caseCmp(k, r);
+    }
+    // classes *-params (all routing parameters / options, degenerate alignments): own index range after `cmp`
+    long nsym = (thorough ? 1500 : 320) * a.scale, ntr = (thorough ? 800 : 160) * a.scale;
+    for (long j = 0; j < nsym + ntr; ++j) {
+        long k = rounds * NCLASS + ncmp + j;
+        if (!a.want(k)) continue;
+        vh::Rng r = vh::caseRng(a.seed, (uint64_t) k);
+        if (j < nsym) caseRouteSymmetryParams(k, r); else caseRouteTranslateParams(k, r);
     }
     return 0;
 }
